@@ -452,13 +452,18 @@ def check_c03(ctx, R):
     if None in (wname, mba, sep):
         raise AnalysisError("anchor vanished: _output_name_of_cable_wire_ / multibit_add_cable / separate_name_and_index")
 
+    from ..inline import inlined_view
+    wview = inlined_view(P, wname)  # the per-bit name may be built by a helper of its own
+
     def delims(marker):
         """single-character string constants, in source order, of the concatenation that builds the per-bit identifier
         (contains the EDIF.identifier lookup) or the per-bit name (contains the .NAME lookup)"""
-        for a in walk_local(wname.node):
-            if isinstance(a, ast.Assign) and isinstance(a.value, ast.BinOp) and marker in norm(a.value) and "rename" not in norm(a.value):
-                return [c.value for c in sorted((c for c in ast.walk(a.value) if isinstance(c, ast.Constant) and isinstance(c.value, str) and len(c.value) == 1),
-                                                key=lambda c: (c.lineno, c.col_offset))]
+        from ..strings import template
+        for a in walk_local(wview.node):
+            if isinstance(a, ast.Assign) and marker in norm(a.value) and "rename" not in norm(a.value):
+                t = template(a.value)  # whatever the notation: concatenation, f-string, format
+                if t is not None and len(t) >= 2:
+                    return [p_ for p_ in t if isinstance(p_, str) and len(p_) == 1]
         return None
 
     idd, nmd = delims("'EDIF.identifier'"), delims("'.NAME'")
@@ -494,6 +499,27 @@ def check_c03(ctx, R):
         R.ok("B3", "name suffix %s<i>%s split on %r / closed by %r" % (nmd[0], nmd[1], rd["name"], nmd[1]), wname.loc())
     else:
         R.bad("B3", "name-delimiters|%s" % "".join(nmd), wname.loc(), "the writer builds per-bit names as name%s<i>%s but the reader expects %s<i>%s" % (nmd[0], nmd[-1], rd["name"], "/".join(sorted(closers))))
+
+
+    # the base name is what precedes the LAST opening delimiter: the name part is free text and may contain the delimiter itself
+    # (`mem[0]` written bit by bit as `mem[0][1]`); a cut at the first occurrence loses part of the name and merges different cables
+    firsts = []
+    for sf in sep_funcs:
+        for c in walk_local(sf.node):
+            if isinstance(c, ast.Call) and isinstance(c.func, ast.Attribute) and c.func.attr in ("index", "find", "partition") and c.args \
+                    and (norm(c.args[0]) in sf.params or (isinstance(c.args[0], ast.Constant) and c.args[0].value == rd.get("name"))):
+                firsts.append((sf, c))
+            if isinstance(c, ast.Subscript) and isinstance(c.value, ast.Call) and isinstance(c.value.func, ast.Attribute) and c.value.func.attr == "split" \
+                    and isinstance(c.slice, ast.Constant) and c.slice.value == 0 and c.value.args and norm(c.value.args[0]) in sf.params:
+                firsts.append((sf, c))
+    for sf, c in firsts:
+        used_for_name = any(isinstance(p_, (ast.Assign, ast.Return)) for p_ in parent_chain(c))
+        if used_for_name:
+            R.bad("B3", "%s|first delimiter" % sf.key, sf.loc(c),
+                  "%s cuts the base name at the FIRST `%s` (`%s`): a bus whose own name contains the delimiter (`mem[0]`, bits `mem[0][1]`) comes back under "
+                  "a shorter name and the bits of different buses are merged into one cable" % (sf.qualname, rd.get("name", "["), short(c, 50)))
+    if not firsts:
+        R.ok("B3", "the base name of a bit is cut at the last delimiter", sep.loc())
 
 
 def _member_indices(ctx, R):
@@ -680,7 +706,9 @@ def toposort_template(P):
     `while <stack>` loop peeks `x = <stack>[-1]`, pushes dependencies and pops / emits when nothing was pushed.
     Returns dict(method, worker, loop, stack, cur, pushes=[(call, child var, guard If or None)], vis_adds, emits, pop_if, driver)"""
     cc = P.cls(COMP, "ComposeEdif")
+    from ..inline import guards_structured_view
     for mname, f in sorted(cc.methods.items()):
+        f = guards_structured_view(f)  # `if top changed: continue` before the pop reads as the pop under `if top unchanged:`
         for fn in [n for n in ast.walk(f.node) if isinstance(n, ast.FunctionDef)]:
             for w in [n for n in ast.walk(fn) if isinstance(n, ast.While)]:
                 peek = [a for a in w.body if isinstance(a, ast.Assign) and isinstance(a.value, ast.Subscript) and isinstance(a.value.value, ast.Name)
